@@ -153,7 +153,14 @@ class CHECK(Check):
                   "n positions has n rows so count's overall CI is n; constant metric => all quantiles equal; non-constant "
                   "samples => positive width for wide quantile pairs; the mean is strictly inside (min,max). Tie: resample "
                   "positions replayed from the integer seed, all *_ci accessors recomputed exactly by a Fraction oracle and "
-                  "by the compiled Lean model; same-seed identity, type/columns/index vs the point estimates, spy metric.")
+                  "by the compiled Lean model; same-seed identity, type/columns/index vs the point estimates, spy metric. "
+                  "SOURCE TIE (harness/lifters/bootstrap.py -> Generated/BootstrapSrc.lean): the data.sample keywords, the seed of "
+                  "sample i, the loop count, the numpy quantile function / method / axis / q order of the Series and the DataFrame "
+                  "path, the assembly of entry i and the quantile argument at every *_ci call site are lifted from the ast; "
+                  "Model/BootstrapSrc.lean builds ciSrc / drawCount / validResample / seedIndex from them and src_* theorems prove "
+                  "ciSrc = ci, drawCount n = n, with replacement, per-sample seeds, order as given (so quantile_mono, "
+                  "ci_length_and_order, count_is_n hold of the code as lifted); bootsrc.ci / bootsrc.plan are compared with the "
+                  "pinned model and the property's own resampling on every case.")
     design_ref = "DESIGN.md section 4, C18"
     quick_cases = 260
     thorough_cases = 1500
@@ -400,7 +407,27 @@ class CHECK(Check):
         p1 = self._plan(case, impl_out["idx"], "s1")
         base = [ln for _, ln in p1 + self._plan(case, impl_out["idx2"], "s2")]
         # the same computation from the pieces lifted from the source, and the lifted resampling plan
-        return base + ["bootsrc.ci" + ln[len("boot.ci"):] for _, ln in p1] + [f"bootsrc.plan {len(case['yt'])} {case['n_boot']}"]
+        out = base + ["bootsrc.ci" + ln[len("boot.ci"):] for _, ln in p1] + [f"bootsrc.plan {len(case['yt'])} {case['n_boot']}"]
+        # control features: the per-level CI computed by the Lean model from the UNSPLIT data (theorems
+        # level_resample_is_filtered_resample / no_cross_talk_between_levels are about this function)
+        return out + self._ciat_lines(case, impl_out["idx"])
+
+    def _ciat_lines(self, case, idxs):
+        if case["cf"] is None:
+            return []
+        n = len(case["yt"])
+        pred = case["score"] if case["call_score"] else case["yp"]
+        rows = list(range(n))
+        itok = ";".join(proto.lst(idx) for idx in idxs)
+        w = "none" if case["w"] is None else proto.lst(case["w"])
+        out = []
+        for c in sorted(set(case["cf"])):
+            for m in case["metrics"]:
+                wt = w if m in WEIGHTABLE else "none"
+                out.append(f"boot.ciat {c} {proto.lst(case['cf'])} {self._mtok(case, m)} {proto.lst([self._gkey(case, i) for i in rows])} "
+                           f"{proto.lst(case['yt'])} {proto.lst(case['yp'])} {proto.lst([F(pred[i]) for i in rows])} {wt} {itok} "
+                           f"{proto.lst([F(q) for q in case['qs']])}")
+        return out
 
     # ---------------------------------------------------------------- oracle
     def _oracle(self, case, idxs):
@@ -509,6 +536,13 @@ class CHECK(Check):
             # ---- source-derived model == pinned model; lifted resampling plan == the property's resampling --------------
             n1 = len(self._plan(case, o["idx"], "s1"))
             extra = mo[len(plan):]
+            ciat = extra[n1 + 1:]
+            extra = extra[:n1 + 1]
+            if case["cf"] is not None:
+                # Lean's own split of the unsplit data (ciAt) == the per-level lines this harness built (same order: level, metric)
+                if len(ciat) != n1 or any(a != b for a, b in zip(mo[:n1], ciat)):
+                    P.append(Problem("harness", f"boot.ciat (per-level CI from the unsplit data) {ciat[:2]} != boot.ci on the split "
+                                                f"rows {mo[:2]}"))
             if len(extra) != n1 + 1 or "bad-op" in extra:
                 P.append(Problem("harness", f"driver rejected the source-derived lines: {extra[:3]}"))
             else:
